@@ -2701,9 +2701,8 @@ func (r *repoT) GobDecode(b []byte) error {
 }
 
 func (r *repoT) GobEncode() ([]byte, error) {
-	r.RLock()
-	r.RUnlock()
-
+	// The caller (saveToStore) holds the read lock.  Taking it again here deadlocked the repo
+	// whenever a writer asked for the lock between the two acquisitions.
 	var buf bytes.Buffer
 	enc := gob.NewEncoder(&buf)
 	if err := enc.Encode(r.id); err != nil {
